@@ -124,9 +124,23 @@ class World:
         self.f2 = m.Symbol("f2", FunctionType(BVType(2), [BVType(2), BOOL]))
         self.fr = m.Symbol("fr", FunctionType(REAL, [REAL, INT]))
 
-    def call_mgr(self, name, args):
+    def has_shortcut(self, name):
+        f = getattr(shortcuts, name, None)
+        return callable(f) and getattr(f, "__module__", None) == "pysmt.shortcuts" and hasattr(self.mgr, name)
+
+    def call_mgr(self, name, args, via_shortcuts=False):
         with warnings.catch_warnings():
             warnings.simplefilter("ignore")
+            if via_shortcuts:
+                a = py_args(args)
+                f = getattr(shortcuts, name)
+                if name == "Array":
+                    return f(a[0], a[1], dict(zip(a[2::2], a[3::2])))
+                if name == "Function":
+                    return f(a[0], a[1:])
+                if name in ("ForAll", "Exists"):
+                    return f(a[:-1], a[-1])
+                return f(*a)
             if name == "Abs":
                 return shortcuts.Abs(*py_args(args))
             if name == "Array":
@@ -263,6 +277,11 @@ def k_cases(W, rng, tier):
                  (W.r[0], m.Real(2)), (W.i[0], W.i[1]), (m.Int(0), m.Int(0)), (m.Real(3), m.Real(2)),
                  (W.r[0], m.Int(2)), (m.Int(0), m.Int(-1))):
         mk("Pow", b, e)
+    for b in (3, 10, -2, 7, 0, 1):
+        for e in (-1, -2, -3, 0, 1, 5):
+            mk("Pow", m.Int(b), m.Int(e))
+            mk("Pow", m.Real(Fraction(b, 3)), m.Int(e))
+            mk("Pow", m.Int(b), m.Real(e))
     for v in (0, 5, -7, 10 ** 20 + 1, True, 1.0, None, Fraction(3)):
         mk("Int", v)
     for v in (0, 5, -7, Fraction(1, 3), Fraction(-10, 4), 0.5, 2.0, True, None):
@@ -277,7 +296,8 @@ def k_cases(W, rng, tier):
             mk("SBV", n, w)
         mk("BVOne", w)
         mk("BVZero", w)
-    for sarg in ("#b0", "#b1", "#b0101", "0101", "1", "#b", "", "012", "#b2", "abc"):
+    for sarg in ("#b0", "#b1", "#b0101", "0101", "1", "#b", "", "012", "#b2", "abc", "#b+1", "#b1_0", "#b0b1", "#b-1",
+                 "+1", "1_0", "#b 1", "#b1 ", "#B01", "#b#b1", "0b1"):
         mk("BV", sarg)
         mk("SBV", sarg)
         mk("BV", sarg, 4)
@@ -364,6 +384,17 @@ def k_cases(W, rng, tier):
     mk("Array", BVType(2), m.BV(0, 2), m.BV(1, 2), m.BV(3, 2))
     mk("Array", INT, m.Int(0), W.i[0], m.Int(5))
     mk("Array", INT, m.Int(0), m.Int(1), m.Real(5))
+    # a dropped pair (value = default) whose key has the wrong sort / is not a constant
+    mk("Array", INT, m.Int(0), m.BV(1, 2), m.Int(0))
+    mk("Array", INT, m.Int(0), m.Real(1), m.Int(0), m.Int(2), m.Int(7))
+    mk("Array", INT, m.Int(0), W.i[0], m.Int(0))
+    mk("Array", BVType(2), m.BV(0, 2), m.BV(1, 2), m.BV(0, 2), m.BV(2, 2), m.BV(3, 2))
+    # array values as keys: constant only when every child is a constant
+    kc = m.Array(INT, m.Int(0), {m.Int(1): m.Int(2)})
+    kn = m.Store(W.aii, m.Int(0), m.Int(1))
+    mk("Array", ArrayType(INT, INT), m.Int(0), kc, m.Int(5))
+    mk("Array", ArrayType(INT, INT), m.Int(0), kn, m.Int(5))
+    mk("Array", ArrayType(INT, INT), m.Int(0), W.aii, m.Int(5))
     mk("Function", Sym(W.f1), W.i[0])
     mk("Function", Sym(W.f1), m.Int(3))
     mk("Function", Sym(W.f1), W.r[0])
@@ -505,6 +536,11 @@ def run_k(ctx, W):
             out = outcome(lambda: W.call_infix(name, recv, args))
         reqs.append(line.rstrip())
         meta.append((kind, name, recv, args, out))
+        if kind == "mk" and W.has_shortcut(name):
+            # the same call through the wrapper of pysmt.shortcuts: same request, same answer expected
+            out2 = outcome(lambda: W.call_mgr(name, args, via_shortcuts=True))
+            reqs.append(line.rstrip())
+            meta.append(("sc", name, recv, args, out2))
     try:
         answers = ctx.lean_run_sharded("C06", reqs)
     except common.LeanError as e:
@@ -513,7 +549,8 @@ def run_k(ctx, W):
     seen_ctor, seen_meth = set(), set()
     sampled = set()
     for line, ans, (kind, name, recv, args, out) in zip(reqs, answers, meta):
-        call = "%s%s(%s)" % ((semantic.readable(recv, 60) + ".") if kind == "infix" else "", name,
+        call = "%s%s(%s)" % ((semantic.readable(recv, 60) + ".") if kind == "infix" else
+                             ("shortcuts." if kind == "sc" else ""), name,
                              ", ".join(show_arg(a) for a in args))
         rep = {"kind": kind, "call": call, "request": line, "lean": ans[:400],
                "impl": (out[0], out[1][:400]) if out[0] != "err" else out[:3]}
@@ -531,7 +568,7 @@ def run_k(ctx, W):
         elif PRIMITIVE_ROOT.get(name) != out[2].node_type() or name not in PRIMITIVE_ROOT:
             nontrivial = line
         ctx.case(nontrivial)
-        (seen_ctor if kind == "mk" else seen_meth).add(name)
+        (seen_meth if kind == "infix" else seen_ctor).add(name)
         ctx.count("k_" + kind)
         if ans == "out-of-fragment":
             ctx.count("k_model_out_of_fragment")
@@ -951,14 +988,33 @@ class SForm:
         self.rewritten = rewritten
 
 
+class ShortcutsProxy(object):
+    """`m.X(...)` goes through the wrapper `pysmt.shortcuts.X` when there is one"""
+    def __init__(self, mgr):
+        self._mgr = mgr
+
+    def __getattr__(self, n):
+        f = getattr(shortcuts, n, None)
+        if callable(f) and getattr(f, "__module__", None) == "pysmt.shortcuts" and hasattr(self._mgr, n):
+            return f
+        return getattr(self._mgr, n)
+
+
 def s_forms(W, tier, rng):
-    m = W.mgr
-    forms = []
     maxw = 3 if tier == "quick" else 4
+    base = base_forms(W, tier, rng, W.mgr, "", maxw)
+    via_sc = base_forms(W, tier, rng, ShortcutsProxy(W.mgr), " [shortcuts]", 2 if tier == "quick" else 3)
+    return base + via_sc + variant_forms(base, tier) + expr_forms(rng, tier)
+
+
+def base_forms(W, tier, rng, m, tag, maxw):
+    forms = []
     widths = list(range(1, maxw + 1))
 
     def add(name, sorts, build, oracle, rewritten=True):
-        forms.append(SForm(name, sorts, build, oracle, rewritten))
+        if tag and name.startswith("infix"):
+            return
+        forms.append(SForm(name + tag, sorts, build, oracle, rewritten))
 
     B, I, R = "bool", "int", "real"
 
@@ -1223,7 +1279,6 @@ def s_forms(W, tier, rng):
                 return ("bv", w * len(v), acc)
             if w <= 2 or k <= 4:
                 add("BVConcat", [V] * k, lambda W, a: m.BVConcat(*a), cc)
-    forms = forms + variant_forms(forms, tier) + expr_forms(rng, tier)
     return forms
 
 
@@ -1268,6 +1323,50 @@ def s_consts(ctx, W):
                 if out[0] != "ok" or int(out[2].constant_value()) != val or out[2].bv_width() != w:
                     ctx.report_s({"oracle": "named-function", "form": nm, "kind": "wrong-value"},
                                  "%s(%d) -> %r" % (nm, w, out[:2]), {"call": "%s(%d)" % (nm, w), "form": nm, "args": [w]})
+
+
+def s_pow(ctx, W):
+    """constant folding of Pow: an integer exponent must give the exact rational power; a
+    non-integer exponent may only be folded when the result is rational (checked by raising the
+    folded value back to the inverse power)"""
+    m = W.mgr
+    bases = [Fraction(b) for b in (0, 1, -1, 2, 3, -3, 7, 10)] + [Fraction(2, 3), Fraction(-5, 2), Fraction(9, 4)]
+    exps = [Fraction(e) for e in (-3, -2, -1, 0, 1, 2, 5)] + [Fraction(1, 2), Fraction(1, 3), Fraction(-1, 2), Fraction(3, 2)]
+    for b in bases:
+        for e in exps:
+            for bt, et in (("i", "i"), ("r", "i"), ("i", "r"), ("r", "r")):
+                if (bt == "i" and b.denominator != 1) or (et == "i" and e.denominator != 1):
+                    continue
+                B = m.Int(int(b)) if bt == "i" else m.Real(b)
+                E = m.Int(int(e)) if et == "i" else m.Real(e)
+                out = outcome(lambda: m.Pow(B, E))
+                call = "Pow(%s, %s)" % (B, E)
+                ctx.case(call)
+                ctx.count("s_pow")
+                if out[0] != "ok" or not out[2].is_real_constant():
+                    continue                      # refused (0 ** negative, complex result): no value claimed
+                got = Fraction(out[2].constant_value())
+                if e.denominator == 1:
+                    if b == 0 and e < 0:
+                        continue
+                    exact = b ** int(e)
+                    if got != exact:
+                        ctx.report_s({"oracle": "named-function", "form": "Pow", "kind": "wrong-value",
+                                      "exponent": "integer"},
+                                     "%s folds to %s, the exact power is %s" % (call, got, exact),
+                                     {"form": "Pow", "call": call, "args": [str(b), str(e)]})
+                else:
+                    # got must satisfy got ** den == b ** num exactly
+                    if e.numerator >= 0:
+                        target = b ** e.numerator
+                    else:
+                        target = None if b == 0 else Fraction(1) / (b ** (-e.numerator))
+                    if target is None or got ** e.denominator != target:
+                        ctx.report_s({"oracle": "named-function", "form": "Pow", "kind": "wrong-value",
+                                      "exponent": "non-integer"},
+                                     "%s folds to %s, which is not the %s-th power of %s (inexact float)" % (
+                                         call, got, e, b),
+                                     {"form": "Pow", "call": call, "args": [str(b), str(e)]})
 
 
 INT_VALUES = [0, 1, -1, 2, -2, 3, 5, -5, 7, 10, -10, 2 ** 31, -(2 ** 31), 10 ** 20 + 1]
@@ -1350,7 +1449,7 @@ def run_s(ctx, W):
             quick = ctx.tier == "quick"
             asg, exh = assignments(ctx, F.sorts, 128 if quick else 4096,
                                    (16 if quick else 80) if not all(finite(x) for x in F.sorts) else (48 if quick else 512))
-        elif " @" in F.name:
+        elif " @" in F.name or "[shortcuts]" in F.name:
             asg, exh = assignments(ctx, F.sorts, 512 if ctx.tier == "quick" else cap, 30 if ctx.tier == "quick" else 200)
         else:
             asg, exh = assignments(ctx, F.sorts, cap, samples)
@@ -1446,6 +1545,7 @@ def run(ctx):
     run_k(ctx, W)
     W = World()
     s_consts(ctx, W)
+    s_pow(ctx, W)
     run_s(ctx, W)
 
 
@@ -1473,6 +1573,11 @@ def replay(ctx, rep):
     form = r.get("form")
     if form in ("SBV", "BV", "BVOne", "BVZero"):
         s_consts(ctx, W)
+        return
+    if form == "Pow":
+        s_pow(ctx, W)
+        for v in ctx.s_violations[:3]:
+            print("still failing:", v["what"])
         return
     # re-run exactly this form (all its assignments) against the current tree
     if form.startswith("expr "):
